@@ -2,6 +2,7 @@ package main
 
 import (
 	"fmt"
+	"os"
 	"strconv"
 	"strings"
 
@@ -88,8 +89,68 @@ func genRun(g *hx.Gen, fam int) string {
 	return strings.Join(parts, ",")
 }
 
+// runWith renders one run: the defaults of a plain successful request with the given fields replaced
+func runWith(over ...string) string {
+	f := map[string]string{
+		"pol": "NONS", "hk": "0", "ln": hx.HexS("alice"), "tid": hx.HexS("ab12cd34ef"), "ip": hx.HexS("10.0.0.1"),
+		"ru": hx.HexS("alice"), "rh": hx.HexS("host"), "algo": "0", "val": "43200", "kids": "0:" + hx.HexS("id-default") + "+1:" + hx.HexS("id-rsa") + "+ecdsa:" + hx.HexS("id-ec"),
+		"pub": "key:L1", "bare": "abs", "hs": "reg", "ag": "honest", "failat": "-", "closeat": "-", "ca": "certs:1:1",
+	}
+	for i := 0; i+1 < len(over); i += 2 {
+		f[over[i]] = over[i+1]
+	}
+	var parts []string
+	for _, k := range []string{"pol", "hk", "ln", "tid", "ip", "ru", "rh", "algo", "val", "kids", "pub", "bare", "hs", "ag", "failat", "closeat", "ca"} {
+		parts = append(parts, k+"="+f[k])
+	}
+	return strings.Join(parts, ",")
+}
+
+// exhaustiveGS: every sequence of `depth` runs over a curated alphabet (one run per way a step can
+// go: each reply shape of the CA, each answer of the agent to the challenge, a failure or a closed
+// connection at each agent operation), from each starting agent.
+func exhaustiveGS(depth int, wide bool) [][]string {
+	alphabet := []string{runWith(), runWith("ca", "certs:2:2"), runWith("ca", "mixed:1:0"), runWith("ca", "mixed:0:1"), runWith("ca", "plain"), runWith("ca", "foreign"),
+		runWith("ca", "certs:0:0"), runWith("ca", "err"), runWith("ca", "panic"), runWith("ca", "-"), runWith("ag", "fail"), runWith("ag", "replay"), runWith("ag", "okey:L2"),
+		runWith("ag", "odata"), runWith("ag", "empty"), runWith("pub", "key:L3"), runWith("pub", "empty"), runWith("hk", "1"), runWith("pol", "NSOK"), runWith("algo", "99"),
+		runWith("hs", "rej|reg"), runWith("hs", "gkey:1:-:0", "ca", "certs:1:1"), runWith("hs", "gpanic")}
+	for k := 0; k <= 6; k++ {
+		alphabet = append(alphabet, runWith("failat", strconv.Itoa(k), "ca", "certs:2:2"))
+		if wide {
+			alphabet = append(alphabet, runWith("closeat", strconv.Itoa(k), "ca", "certs:2:2"))
+		}
+	}
+	if wide {
+		alphabet = append(alphabet, runWith("ca", "realdead"), runWith("ca", "realdown"), runWith("ln", hx.HexS("bob")), runWith("hs", "gkeyn:1"), runWith("hs", "gerr:handlerConf"),
+			runWith("ag", "garbage"), runWith("pub", "bad"), runWith("val", "1"), runWith("algo", "2"))
+	}
+	starts := []string{"L1:" + hx.HexS("user key"), "L1:-,c:L2:" + hx.HexS("paranoids.regular-cert") + ",L2:" + hx.HexS("my key"), "-"}
+	var sets [][]string
+	var rec func(prefix []string)
+	rec = func(prefix []string) {
+		if len(prefix) == depth {
+			for _, st := range starts {
+				sets = append(sets, []string{st, strings.Join(prefix, ";")})
+			}
+			return
+		}
+		for _, a := range alphabet {
+			rec(append(append([]string{}, prefix...), a))
+		}
+	}
+	rec(nil)
+	return sets
+}
+
 func genGS(g *hx.Gen, out *hx.Out) {
 	var sets [][]string
+	if os.Getenv("VERIF_TIER") == "thorough" {
+		sets = append(sets, exhaustiveGS(2, true)...)
+		sets = append(sets, exhaustiveGS(3, false)...)
+	} else {
+		sets = append(sets, exhaustiveGS(1, true)...)
+		sets = append(sets, exhaustiveGS(2, false)...)
+	}
 	for i := 0; i < *hx.Count; i++ {
 		var init []string
 		for j := g.Intn(4); j > 0; j-- {
